@@ -287,6 +287,7 @@ func runDup(c *core.Ctx) []core.Obligation {
 	}
 	vrExamined, vrObs := valueReceiverStores(c)
 	obs = append(obs, vrObs...)
+	obs = append(obs, round10Lints(c)...)
 	_ = vrExamined
 	obs = append(obs, core.Ob("R-DUP", "scan", "-", "", core.Discharged, fmt.Sprintf("%d &&/|| chains, %d pairs of consecutive if statements %d clamp statements, %d pairs of consecutive call assignments, %d value-less local declarations and %d multi-value call assignments examined across the library; no duplicated test, no clamp to a value other than the tested bound, no repeated call, no never-assigned local that is read, no named result that is never used; %d hand-written running-extreme steps, none comparing with a stale value", chains, ifs, clamps, calls, zeroVars, deadStores, runs)))
 	return obs
